@@ -28,6 +28,7 @@ func init() {
 			{"PAR-RESIZE", 5, ruleParResize},
 			{"INS-PATCH", 3, ruleInsPatch},
 			{"PAR-GLOBALIDX", 3, ruleParGlobalIdx},
+			{"LAY-DEPTH", 40, ruleLayDepth},
 		},
 	})
 	register(&propDef{
